@@ -336,7 +336,7 @@ def match_nest(F, blk):
         elif st["s"] in ("expr", "semi") and is_for(st["e"]):
             loops.append(st["e"])
     if shape_let is None or uninit_let is None or len(loops) != 1:
-        return False, ["template statements (shape_generic, uninit, one loop nest) not found"]
+        return None, ["template statements (shape_generic, uninit, one loop nest) not found"]
     src_id = local_id(shape_let["init"]["recv"])
     rows_id, cols_id = (p.get("id") for p in shape_let["pat"]["pats"])
     res_id = uninit_let["pat"].get("id")
@@ -346,13 +346,13 @@ def match_nest(F, blk):
     # 2. the nest
     outer = for_parts(loops[0])
     if outer is None:
-        return False, ["outer loop is not a range loop"]
+        return match_zip(F, blk, loops[0], src_id, res_id, probs)
     inner_e = single_stmt(outer[3])
     if not is_for(inner_e):
-        return False, ["loop nest is not two directly nested range loops"]
+        return None, ["loop nest is not two directly nested range loops"]
     inner = for_parts(inner_e)
     if inner is None:
-        return False, ["inner loop is not a range loop"]
+        return None, ["inner loop is not a range loop"]
 
     def dim_of(end):
         if end["k"] == "mcall" and end["m"] == "value":
@@ -411,6 +411,71 @@ def match_nest(F, blk):
     return (not probs), probs + (["note: early exit (`?`) inside the nest"] if early else [])
 
 
+def match_zip(F, blk, loop, src_id, res_id, probs):
+    """second template:  for (slot, a) in RES.iter_mut().zip(SRC.iter()) { slot.write(f(a)) }  with RES = uninit(shape of SRC):
+    equal shapes give equal lengths and the same (column-major) traversal, so every slot is written exactly once"""
+    it = loop["scrut"]["args"][0] if loop["scrut"].get("k") == "call" and loop["scrut"].get("args") else None
+    if it is None or it.get("k") != "mcall" or it["m"] != "zip" or len(it["args"]) != 1:
+        return None, ["the loop is neither a range nest nor iter_mut().zip(iter())"]
+    l, r = it["recv"], it["args"][0]
+
+    def side(e):
+        e = peel_refs(e)
+        if e.get("k") == "mcall" and e["m"] in ("iter_mut", "iter") and not e["args"]:
+            return e["m"], local_id(e["recv"])
+        return None, None
+    (lm, lid), (rm, rid) = side(l), side(r)
+    sides = {lm: lid, rm: rid}
+    if set(sides) != {"iter_mut", "iter"}:
+        return None, ["the loop is neither a range nest nor iter_mut().zip(iter())"]
+    if sides["iter_mut"] != res_id:
+        probs.append("the mutable iterator is not over the uninitialised result")
+    if sides["iter"] != src_id:
+        probs.append("the shared iterator is not over the source the result was shaped after")
+    # loop pattern (slot, a) in the order of the zip
+    arm = loop["arms"][0]
+    lp = arm["body"]
+    while lp["k"] == "block":
+        lp = lp["b"]["tail"] or lp["b"]["stmts"][-1]["e"]
+    inner = lp["body"]["stmts"][0]["e"] if lp["body"]["stmts"] else lp["body"]["tail"]
+    some = [a for a in inner["arms"] if a["pat"].get("fields") or a["pat"].get("pats")][0]
+    pat = some["pat"]["fields"][0]["pat"] if some["pat"]["k"] == "struct" else some["pat"]["pats"][0]
+    if pat["k"] != "tuple" or len(pat["pats"]) != 2 or any(q["k"] != "bind" for q in pat["pats"]):
+        return None, ["loop pattern is not a pair of bindings"]
+    slot_id = pat["pats"][0 if lm == "iter_mut" else 1]["id"]
+    body = some["body"]
+    writes, bad = [], []
+    for n in walk.walk(body):
+        k = n.get("k")
+        if k == "mcall" and n["m"] == "write" and local_id(n["recv"]) == slot_id:
+            writes.append(n)
+        elif k == "assign" and peel_refs(n["a"]).get("k") == "un" and local_id(peel_refs(n["a"])["a"]) == slot_id:
+            writes.append(n)
+        elif k in ("break", "continue", "if", "loop"):
+            bad.append(k)
+        elif k == "match" and not n.get("src", "").startswith("TryDesugar"):
+            bad.append("match")
+    if bad:
+        probs.append("conditional / early-exit construct inside the loop: %s" % bad)
+    if len(writes) != 1:
+        probs.append("expected exactly one unconditional write to the slot per element (found %d)" % len(writes))
+    tail = blk.get("tail")
+    ai = [n for n in walk.walk(tail) if n.get("k") == "mcall" and n["m"] == "assume_init"] if tail else []
+    if len(ai) != 1 or local_id(ai[0]["recv"]) != res_id:
+        probs.append("assume_init is not applied to the result after the complete loop")
+    for n in walk.walk(loop):
+        if n.get("k") == "mcall" and n["m"] == "assume_init":
+            probs.append("assume_init inside the loop")
+    early = any(n.get("k") == "match" and n.get("src", "").startswith("TryDesugar") for n in walk.walk(body))
+    return (not probs), probs + (["note: early exit (`?`) inside the loop"] if early else [])
+
+
+def peel_refs(e):
+    while e.get("k") in ("addr", "cast") or (e.get("k") == "block" and not e["b"]["stmts"] and e["b"].get("tail")):
+        e = e["a"] if e["k"] != "block" else e["b"]["tail"]
+    return e
+
+
 def unsafe_sites(chk, F):
     ok_all = True
     n_nest = 0
@@ -448,6 +513,8 @@ def unsafe_sites(chk, F):
             ok, probs = match_nest(F, blk["b"])
             notes = [p for p in probs if p.startswith("note:")]
             probs = [p for p in probs if not p.startswith("note:")]
+            if ok is None:
+                continue      # not one of the two recognised schemes: falls through to `unknown` below
             matched = True
             n_nest += 1
             chk.ob("unsafe|nest|%s" % b["path"], ok,
